@@ -9,16 +9,21 @@ Import ListNotations.
 Section P.
 Context {T : Type} {N : Num T}.
 
-Fixpoint steps (step : ss T -> result (ss T * unit)) (k : nat) (s : ss T) : result (ss T) :=
-  match k with O => Ok s | S k' => bind (step s) (fun '(s', _) => steps step k' s') end.
+(* k scheduler steps; a raising step ends the run with that exception *)
+Fixpoint steps (step : ss T -> sres (ss T) unit) (k : nat) (s : ss T) : result (ss T) :=
+  match k with
+  | O => Ok s
+  | S k' => match step s with SOk s' _ => steps step k' s' | SErr _ e => Err e end
+  end.
 
 Lemma steps_snoc step k s :
-  steps step (S k) s = bind (steps step k s) (fun s' => bind (step s') (fun '(s'', _) => Ok s'')).
+  steps step (S k) s =
+  bind (steps step k s) (fun s' => match step s' with SOk s'' _ => Ok s'' | SErr _ e => Err e end).
 Proof.
   revert s. induction k as [|k IH]; intros s.
-  - cbn [steps bind]. destruct (step s) as [[s' u]|e]; reflexivity.
-  - change (steps step (S (S k)) s) with (bind (step s) (fun '(s', _) => steps step (S k) s')).
-    cbn [steps]. destruct (step s) as [[s' u]|e]; cbn [bind]; [apply IH | reflexivity].
+  - cbn [steps bind]. destruct (step s) as [s' u|s' e]; reflexivity.
+  - change (steps step (S (S k)) s) with (match step s with SOk s' _ => steps step (S k) s' | SErr _ e => Err e end).
+    cbn [steps]. destruct (step s) as [s' u|s' e]; cbn [bind]; [apply IH | reflexivity].
 Qed.
 
 Fixpoint iter (k : nat) (f : T -> T) (x : T) : T := match k with O => x | S k' => f (iter k' f x) end.
@@ -30,13 +35,13 @@ Definition same_cfg (a b : ss T) :=
 (* ---------------- noise schedulers ---------------- *)
 
 Lemma noise_exp_ctor s0 v g :
-  exists s1, noise_exp_init s0 v g (-1) = Ok (s1, tt) /\
+  exists s1, noise_exp_init s0 v g (-1) = SOk s1 tt /\
              f_last_epoch s1 = 0%Z /\ f_oval s1 = v /\ f_gamma s1 = g.
 Proof. eexists; split; [reflexivity|]; cbn; auto. Qed.
 
 Lemma noise_exp_one s :
   (0 <= f_last_epoch s)%Z ->
-  exists s', noise_step noise_exp_get s = Ok (s', tt) /\ f_last_epoch s' = (f_last_epoch s + 1)%Z /\
+  exists s', noise_step noise_exp_get s = SOk s' tt /\ f_last_epoch s' = (f_last_epoch s + 1)%Z /\
              f_oval s' = nmul (f_oval s) (f_gamma s) /\ same_cfg s' s.
 Proof.
   intros H. unfold noise_step, noise_exp_get. cbn.
@@ -54,19 +59,19 @@ Proof.
   - exists s1; cbn; unfold same_cfg; repeat split; auto.
   - destruct IH as (sk & Hs & He & Hv & Hc). rewrite steps_snoc, Hs. cbn [bind].
     destruct (noise_exp_one sk) as (s' & Hst & He' & Hv' & Hc'); [lia|].
-    rewrite Hst. cbn [bind]. exists s'. split; [reflexivity|]. split; [lia|]. split.
+    rewrite Hst. exists s'. split; [reflexivity|]. split; [lia|]. split.
     + rewrite Hv', Hv. cbn [iter]. destruct Hc as (Hg & _). now rewrite Hg.
     + unfold same_cfg in *. intuition congruence.
 Qed.
 
 Lemma noise_step_ctor s0 v sz g :
-  exists s1, noise_stepc_init s0 v sz g (-1) = Ok (s1, tt) /\
+  exists s1, noise_stepc_init s0 v sz g (-1) = SOk s1 tt /\
              f_last_epoch s1 = 0%Z /\ f_oval s1 = v /\ f_gamma s1 = g /\ f_step_size s1 = sz.
 Proof. eexists; split; [reflexivity|]; cbn; auto. Qed.
 
 Lemma noise_step_one s :
   (0 <= f_last_epoch s)%Z ->
-  exists s', noise_step noise_step_get s = Ok (s', tt) /\ f_last_epoch s' = (f_last_epoch s + 1)%Z /\
+  exists s', noise_step noise_step_get s = SOk s' tt /\ f_last_epoch s' = (f_last_epoch s + 1)%Z /\
              f_oval s' = (if ((f_last_epoch s + 1) mod f_step_size s =? 0)%Z
                           then nmul (f_gamma s) (f_oval s) else f_oval s) /\ same_cfg s' s.
 Proof.
@@ -87,7 +92,7 @@ Proof.
   - exists s1; cbn [steps]. rewrite Z.div_0_l by lia. cbn; unfold same_cfg; repeat split; auto.
   - destruct IH as (sk & Hs & He & Hv & Hc). rewrite steps_snoc, Hs. cbn [bind].
     destruct (noise_step_one sk) as (s' & Hst & He' & Hv' & Hc'); [lia|].
-    rewrite Hst. cbn [bind]. exists s'. split; [reflexivity|]. split; [lia|]. split.
+    rewrite Hst. exists s'. split; [reflexivity|]. split; [lia|]. split.
     + rewrite Hv'. destruct Hc as (Hg & Hz & _). rewrite Hg, Hz, He, Hv.
       replace (Z.of_nat k + 1)%Z with (Z.of_nat (S k)) by lia.
       destruct (Z.eqb_spec (Z.of_nat (S k) mod f_step_size s1) 0) as [E|E].
@@ -102,12 +107,12 @@ Proof.
 Qed.
 
 Lemma noise_lambda_ctor s0 v f :
-  exists s1, noise_lambda_init s0 v f (-1) = Ok (s1, tt) /\
+  exists s1, noise_lambda_init s0 v f (-1) = SOk s1 tt /\
              f_last_epoch s1 = 0%Z /\ f_oval s1 = nmul v (f 0%Z) /\ f_base s1 = v /\ f_lam s1 = f.
 Proof. eexists; split; [reflexivity|]; cbn; auto. Qed.
 
 Lemma noise_lambda_one s :
-  exists s', noise_step noise_lambda_get s = Ok (s', tt) /\ f_last_epoch s' = (f_last_epoch s + 1)%Z /\
+  exists s', noise_step noise_lambda_get s = SOk s' tt /\ f_last_epoch s' = (f_last_epoch s + 1)%Z /\
              f_oval s' = nmul (f_base s) (f_lam s (f_last_epoch s + 1)%Z) /\ same_cfg s' s.
 Proof. unfold noise_step, noise_lambda_get. cbn. eexists; split; [reflexivity|]; cbn; unfold same_cfg; cbn; repeat split; auto. Qed.
 
@@ -121,7 +126,7 @@ Proof.
   - exists s1; cbn; unfold same_cfg; repeat split; auto.
   - destruct IH as (sk & Hs & He & Hv & Hc). rewrite steps_snoc, Hs. cbn [bind].
     destruct (noise_lambda_one sk) as (s' & Hst & He' & Hv' & Hc').
-    rewrite Hst. cbn [bind]. exists s'. split; [reflexivity|]. split; [lia|]. split.
+    rewrite Hst. exists s'. split; [reflexivity|]. split; [lia|]. split.
     + rewrite Hv'. destruct Hc as (_ & _ & Hb & Hl). rewrite Hb, Hl, He. f_equal. f_equal. lia.
     + unfold same_cfg in *. intuition congruence.
 Qed.
@@ -147,13 +152,13 @@ Proof. destruct s, s'; reflexivity. Qed.
 (* ---------------- grad-clip schedulers (same shapes, other attribute) ---------------- *)
 
 Lemma clip_exp_ctor s0 v g :
-  exists s1, clip_exp_init s0 v g (-1) = Ok (s1, tt) /\
+  exists s1, clip_exp_init s0 v g (-1) = SOk s1 tt /\
              f_last_epoch s1 = 0%Z /\ f_oval s1 = v /\ f_gamma s1 = g.
 Proof. eexists; split; [reflexivity|]; cbn; auto. Qed.
 
 Lemma clip_exp_one s :
   (0 <= f_last_epoch s)%Z ->
-  exists s', clip_step clip_exp_get s = Ok (s', tt) /\ f_last_epoch s' = (f_last_epoch s + 1)%Z /\
+  exists s', clip_step clip_exp_get s = SOk s' tt /\ f_last_epoch s' = (f_last_epoch s + 1)%Z /\
              f_oval s' = nmul (f_oval s) (f_gamma s) /\ same_cfg s' s.
 Proof.
   intros H. unfold clip_step, clip_exp_get. cbn.
@@ -171,19 +176,19 @@ Proof.
   - exists s1; cbn; unfold same_cfg; repeat split; auto.
   - destruct IH as (sk & Hs & He & Hv & Hc). rewrite steps_snoc, Hs. cbn [bind].
     destruct (clip_exp_one sk) as (s' & Hst & He' & Hv' & Hc'); [lia|].
-    rewrite Hst. cbn [bind]. exists s'. split; [reflexivity|]. split; [lia|]. split.
+    rewrite Hst. exists s'. split; [reflexivity|]. split; [lia|]. split.
     + rewrite Hv', Hv. cbn [iter]. destruct Hc as (Hg & _). now rewrite Hg.
     + unfold same_cfg in *. intuition congruence.
 Qed.
 
 Lemma clip_step_ctor s0 v sz g :
-  exists s1, clip_stepc_init s0 v sz g (-1) = Ok (s1, tt) /\
+  exists s1, clip_stepc_init s0 v sz g (-1) = SOk s1 tt /\
              f_last_epoch s1 = 0%Z /\ f_oval s1 = v /\ f_gamma s1 = g /\ f_step_size s1 = sz.
 Proof. eexists; split; [reflexivity|]; cbn; auto. Qed.
 
 Lemma clip_step_one s :
   (0 <= f_last_epoch s)%Z ->
-  exists s', clip_step clip_step_get s = Ok (s', tt) /\ f_last_epoch s' = (f_last_epoch s + 1)%Z /\
+  exists s', clip_step clip_step_get s = SOk s' tt /\ f_last_epoch s' = (f_last_epoch s + 1)%Z /\
              f_oval s' = (if ((f_last_epoch s + 1) mod f_step_size s =? 0)%Z
                           then nmul (f_gamma s) (f_oval s) else f_oval s) /\ same_cfg s' s.
 Proof.
@@ -204,7 +209,7 @@ Proof.
   - exists s1; cbn [steps]. rewrite Z.div_0_l by lia. cbn; unfold same_cfg; repeat split; auto.
   - destruct IH as (sk & Hs & He & Hv & Hc). rewrite steps_snoc, Hs. cbn [bind].
     destruct (clip_step_one sk) as (s' & Hst & He' & Hv' & Hc'); [lia|].
-    rewrite Hst. cbn [bind]. exists s'. split; [reflexivity|]. split; [lia|]. split.
+    rewrite Hst. exists s'. split; [reflexivity|]. split; [lia|]. split.
     + rewrite Hv'. destruct Hc as (Hg & Hz & _). rewrite Hg, Hz, He, Hv.
       replace (Z.of_nat k + 1)%Z with (Z.of_nat (S k)) by lia.
       destruct (Z.eqb_spec (Z.of_nat (S k) mod f_step_size s1) 0) as [E|E].
@@ -219,12 +224,12 @@ Proof.
 Qed.
 
 Lemma clip_lambda_ctor s0 v f :
-  exists s1, clip_lambda_init s0 v f (-1) = Ok (s1, tt) /\
+  exists s1, clip_lambda_init s0 v f (-1) = SOk s1 tt /\
              f_last_epoch s1 = 0%Z /\ f_oval s1 = nmul v (f 0%Z) /\ f_base s1 = v /\ f_lam s1 = f.
 Proof. eexists; split; [reflexivity|]; cbn; auto. Qed.
 
 Lemma clip_lambda_one s :
-  exists s', clip_step clip_lambda_get s = Ok (s', tt) /\ f_last_epoch s' = (f_last_epoch s + 1)%Z /\
+  exists s', clip_step clip_lambda_get s = SOk s' tt /\ f_last_epoch s' = (f_last_epoch s + 1)%Z /\
              f_oval s' = nmul (f_base s) (f_lam s (f_last_epoch s + 1)%Z) /\ same_cfg s' s.
 Proof. unfold clip_step, clip_lambda_get. cbn. eexists; split; [reflexivity|]; cbn; unfold same_cfg; cbn; repeat split; auto. Qed.
 
@@ -238,7 +243,7 @@ Proof.
   - exists s1; cbn; unfold same_cfg; repeat split; auto.
   - destruct IH as (sk & Hs & He & Hv & Hc). rewrite steps_snoc, Hs. cbn [bind].
     destruct (clip_lambda_one sk) as (s' & Hst & He' & Hv' & Hc').
-    rewrite Hst. cbn [bind]. exists s'. split; [reflexivity|]. split; [lia|]. split.
+    rewrite Hst. exists s'. split; [reflexivity|]. split; [lia|]. split.
     + rewrite Hv'. destruct Hc as (_ & _ & Hb & Hl). rewrite Hb, Hl, He. f_equal. f_equal. lia.
     + unfold same_cfg in *. intuition congruence.
 Qed.
